@@ -434,3 +434,163 @@ class UnlinkTags(TagPrim):
              "frame-other-fields": frame(f, p, [k for k in MAPF if k not in TAGF])}
         d.update(inv_map(f, "tag", X))
         return d
+
+
+# ================================================================================================
+# _link_inds / _unlink_inds   (cases: `norepeat` = the stated domain; `repeats-allowed` = multiplicity reading)
+# ================================================================================================
+
+J = z3.Int("j!pos")  # the arbitrary position used to state  forall j < len(seq). ...  at call sites
+NOREPEAT = NS(name="norepeat", rep=False)
+REPEATS = NS(name="repeats-allowed", rep=True)
+
+
+def not_linked(m, s, tid, j):
+    """instance at position j of:  tid is in no entry of the labels of the sequence"""
+    return Implies(And(0 <= j, j < s.length), Not(sel(m, seq_at(s.sid, j), tid)))
+
+
+class IndPrim(TagPrim):
+    W = "ind"
+    PARAM = "inds"
+    floor = 20
+
+    def cases(self):
+        return [NOREPEAT, REPEATS]
+
+    def case_of_call(self, cx, a):
+        return NOREPEAT
+
+    def inputs(self, cx, case):
+        d = super().inputs(cx, case)
+        if case.rep:
+            cx.ghost["occ"] = cx.Array("occ", INT, INT)  # occurrences of a label in the network, WITH multiplicity
+            cx.ghost["mult"] = cx.Array("mult", INT, INT)  # occurrences of a label on the tensor `tid`
+        return d
+
+    def occ_inv0(self, cx, a):
+        """(I1), (I4), (I5) of the entry state in the multiplicity reading, at X"""
+        p = cx.old_heap[a.self.oid] if getattr(cx, "old_heap", None) else cx.fields(a.self)
+        occ = sel(cx.ghost["occ"], X)
+        return {"occ-present-iff-occ>=1": sel(p["indd"], X) == (occ >= 1), "occ-inner-iff-occ>=2": sel(p["inner"], X) == (occ >= 2),
+                "occ-outer-iff-occ==1": sel(p["outer"], X) == (occ == 1), "occ>=tensors": occ >= sel(p["indc"], X)}
+
+
+@register
+class LinkInds(IndPrim):
+    """_link_inds(inds, tid): as _link_tags on ind_map, plus the inner/outer classification of every linked label"""
+
+    target = f"{TNC}._link_inds"
+
+    def pre(self, cx, a, case):
+        f = cx.fields(a.self)
+        s = self.seq(a)
+        d = dict(inv_map(f, "ind", X))
+        d["tid-not-yet-linked-under-these-labels"] = not_linked(f["indm"], s, a.tid, J)
+        if case.rep:
+            d.update(self.occ_inv0(cx, a))
+        else:
+            d.update(inv_io(f, X))
+            d["labels-pairwise-distinct"] = NoDup(s.sid)
+        return d
+
+    def loop_facts(self, v):
+        # + the instance at the current position of the (universally quantified) precondition `tid not yet linked`
+        p = v.cx.old_heap[v.self.oid]
+        return super().loop_facts(v) + [not_linked(p["indm"], self.seq(v.old), v.old.tid, v._it0)]
+
+    def effect(self, f, p, a, i, case):
+        sid = self.seq(a).sid
+        s = seen(sid, X, i)
+        pm = sel(p["indm"], X)
+        d = {"effect-entry": sel(f["indm"], X) == If(s, add1(pm, a.tid), pm),
+             "effect-present": sel(f["indd"], X) == Or(sel(p["indd"], X), s),
+             "effect-card": sel(f["indc"], X) == sel(p["indc"], X) + If(And(s, Not(sel(pm, a.tid))), 1, 0),
+             "frame-other-fields": frame(f, p, [k for k in MAPF if k not in INDF])}
+        d.update(inv_map(f, "ind", X))
+        if not case.rep:
+            d["effect-inner"] = sel(f["inner"], X) == If(s, sel(p["indd"], X), sel(p["inner"], X))
+            d["effect-outer"] = sel(f["outer"], X) == If(s, Not(sel(p["indd"], X)), sel(p["outer"], X))
+            d.update(inv_io(f, X))
+        else:
+            cnt = count(sid, X, i)
+            occ = sel(a["_cx"].ghost["occ"], X) + cnt  # occ' = occ + number of occurrences in the linked prefix
+            d["spec-seen-iff-count>=1"] = And(cnt >= 0, s == (cnt >= 1))
+            d.update(inv_io(f, X, cnt=occ))
+        return d
+
+
+@register
+class UnlinkInds(IndPrim):
+    """_unlink_inds(inds, tid): as _unlink_tags on ind_map, plus re-classification of every unlinked label.
+    Case `repeats-allowed`: inds is the complete label tuple of tensor tid (count(x) = mult(x)), occ' = occ - mult;
+    occ is the sum over the carrying tensors of their multiplicities (ghost decomposition facts below)."""
+
+    target = f"{TNC}._unlink_inds"
+
+    def others(self, cx):
+        return sel(cx.ghost["occ"], X) - sel(cx.ghost["mult"], X)
+
+    def pre(self, cx, a, case):
+        f = cx.fields(a.self)
+        d = dict(inv_map(f, "ind", X))
+        if case.rep:
+            d.update(self.occ_inv0(cx, a))
+            mult = sel(cx.ghost["mult"], X)
+            rest = sel(f["indc"], X) - If(sel(f["indm"], X, a.tid), 1, 0)  # number of OTHER tensors carrying X
+            s = self.seq(a)
+            d["I2-tid-carries-X-iff-linked"] = And(mult >= 0, sel(f["indm"], X, a.tid) == (mult >= 1))
+            d["occ-is-sum-of-multiplicities"] = And(self.others(cx) >= rest, (self.others(cx) == 0) == (rest == 0))
+            d["inds-is-the-label-tuple-of-tid"] = count(s.sid, X, s.length) == mult
+        else:
+            d.update(inv_io(f, X))
+        return d
+
+    def effect(self, f, p, a, i, case):
+        sid = self.seq(a).sid
+        s = seen(sid, X, i)
+        pm = sel(p["indm"], X)
+        d = {"effect-entry": sel(f["indm"], X) == If(s, del1(pm, a.tid), pm),
+             "effect-card": sel(f["indc"], X) == sel(p["indc"], X) - If(And(s, sel(pm, a.tid)), 1, 0),
+             "frame-other-fields": frame(f, p, [k for k in MAPF if k not in INDF])}
+        d.update(inv_map(f, "ind", X))
+        if not case.rep:
+            d["effect-present"] = sel(f["indd"], X) == And(sel(p["indd"], X),
+                                                         Not(And(s, sel(pm, a.tid), sel(p["indc"], X) == 1)))
+            d.update(inv_io(f, X))
+        else:
+            cx = a["_cx"]
+            cnt = count(sid, X, i)
+            d["spec-seen-iff-count>=1"] = And(cnt >= 0, s == (cnt >= 1))
+            oth = self.others(cx)
+            new = {k: v for k, v in inv_io(f, X, cnt=oth).items()}
+            new["occ-present-iff-occ>=1"] = sel(f["indd"], X) == (oth >= 1)
+            same = And(sel(f["inner"], X) == sel(p["inner"], X), sel(f["outer"], X) == sel(p["outer"], X),
+                       sel(f["indd"], X) == sel(p["indd"], X))
+            for k, v in new.items():
+                d[k] = If(s, v, same)
+        return d
+
+    def replay(self, model):
+        """native replay of the `repeats-allowed` failure: a label carried twice by ONE tensor stays classified by the
+        number of tensors, not of occurrences"""
+        import numpy as np
+        import quimb.tensor as qtn
+
+        def I(k, default):
+            try:
+                return int(str(model.get(k, default)))
+            except (TypeError, ValueError):
+                return default
+        others = 2
+        A = qtn.Tensor(np.ones((2,) * others), inds=("a",) * others, tags="A")
+        B = qtn.Tensor(np.ones((2,)), inds=("a",), tags="B")
+        tn = qtn.TensorNetwork([A, B])
+        tid = next(iter(tn.tag_map["B"]))
+        tn._unlink_inds(("a",), tid)  # the primitive, with the label tuple of tensor B
+        tn.tensor_map.pop(tid)
+        fresh = qtn.TensorNetwork(tn.tensors)
+        got = dict(inner=sorted(tn._inner_inds), outer=sorted(tn._outer_inds))
+        exp = dict(inner=sorted(fresh._inner_inds), outer=sorted(fresh._outer_inds))
+        return dict(call="TensorNetwork([Tensor(inds=('a','a')), Tensor(inds=('a',))])._unlink_inds(('a',), tid_of_second)",
+                    observed=got, fresh_scan=exp, reproduced=got != exp)
